@@ -8,6 +8,10 @@ SPEC = {
     "needs_plz": False,
     "level": "proof",
     "level_text": (
+        "Declared restriction (buildRule/defaultFromConfig/populateTarget): C33_declared_visibility_exact and "
+        "C33_declared_testonly_exact (an explicit argument — the empty list and False included — is the target's "
+        "restriction; only omitted/None takes the package default, else the config default), composed with the visibility "
+        "theorems in C33_explicit_declaration_decides; witness C33_witness_falsy_counts_as_unset for the truthiness variant. "
         "C33_cansee_characterisation (exactly what CanSee computes), C33_visible_complete and C33_complete "
         "(nothing the documented rules allow is ever refused; unconditional), C33_visible_exact_partial and "
         "C33_exact_partial (CheckDependencyVisibility returns nil iff every declared dependency is visible and "
@@ -22,6 +26,8 @@ SPEC = {
         "go/ast extractors harness/extract/c33 (sequence of tests and outcomes of CanSee and CheckDependencyVisibility with identifiers replaced by roles) and harness/extract/c20 (label facts)",
         "correspondence harness/cmd/c33 vs Driver/C33.lean: all small (source package, dependency package, visibility pattern, experimental dir, subrepo) combinations, random package trees with sibling-prefix packages, hidden sub-targets, PUBLIC, subrepos, test_only/test flags, dependency lists",
         "modelled, not verified: Model/Visibility.lean transcribes CanSee and CheckDependencyVisibility over Model/Label.lean",
+        "op `bv`: a BUILD file (package(default_visibility/default_testonly) + one build_rule with omitted / None / [] / False / value arguments) is evaluated by the real parser and interpreter (hook asp.EvalForVerif of C16), target.Visibility / TestOnly read back, then the real CanSee / CheckDependencyVisibility for a plain dependent; all 1440 combinations exhaustively",
+        "extractor also reads defaultFromConfig's not-set test, which buildRule arguments go through it, the config defaults and populateTarget's visibility condition",
         "hook: none for C33 itself (CanSee and CheckDependencyVisibility are exported; experimental dirs enter through NewBuildState)",
     ],
     "assumptions": [
@@ -32,6 +38,12 @@ SPEC = {
 }
 
 MUTATIONS = """
+Round-3 seed (defaultFromConfig: `arg == nil || arg == None` -> `arg == nil || !arg.IsTruthy()`): VERIF_REPO=/tmp/confirm/C33 ./check C33 quick
+                     exit 1: fact defaultUnsetTest flips (C33_facts_ok, C33_explicit_declaration_decides not discharged, 15/17), the model
+                     follows the fact (0 disagreements), oracle VIOLATION explicit-visibility-replaced-by-package-default
+                     `bv P _ E _ 617070` (package(default_visibility=["PUBLIC"]); build_rule(..., visibility=[]); dependent //app:x is
+                     admitted) and explicit-testonly-replaced-by-package-default `bv _ T _ F 617070`.  Missed before the `bv` op existed
+                     (the check built targets through the Go API only).
 Dry-runs on scratch copies (VERIF_REPO=/var/tmp/mC33_<name> ./check C33 quick, inbox findings loaded):
  vis_no_parent       CanSee: vis.Includes(parent) -> vis.Includes(label) (hidden sub-targets no longer act as their parent)
                      exit 1: fact canSeeSteps changed (11/12), 21 disagreements, oracle: visibility-too-strict with a concrete `cs` line
